@@ -412,6 +412,33 @@ def r19_5(ck):
                    % ('a strict comparison' if strict else
                       'an unrecognised condition'), u)
         fired += 1
+    # the head of the timeline is looked at only when there is one: every
+    # read of self.timeline[0] is guarded by the list being non-empty
+    for sub in ast.walk(f.node):
+        if isinstance(sub, ast.Subscript) and A.unparse(
+                sub.value) == 'self.timeline' and A.unparse(
+                sub.slice) == '0' and isinstance(sub.ctx, ast.Load):
+            st = sub
+            test = None
+            while st is not None and not isinstance(st, ast.stmt):
+                if isinstance(getattr(st, '_parent', None), ast.BoolOp):
+                    test = st._parent
+                st = getattr(st, '_parent', None)
+            ok = False
+            if test is not None and isinstance(test.op, ast.And):
+                idx = next((i for i, v in enumerate(test.values)
+                            if A.contains(v, sub)), 0)
+                ok = any(A.unparse(v) in ('self.timeline',
+                                          'len(self.timeline) > 0')
+                         for v in test.values[:idx])
+            if not ok and st is not None and cfg.node(st) is not None:
+                ok = ('truthy', 'self.timeline') in cfg.guards(cfg.node(st))
+            ck.require(ok, 'R19.5', f, sub,
+                       'the head event is read only while events are left',
+                       'self.timeline[0] is read without checking that the '
+                       'timeline still has events: after the last event '
+                       'fired the next tick raises IndexError and the '
+                       'simulation stops', sub)
     # removal exactly once per fired event
     pops = []
     for c in A.calls_in(f.node, ('pop', 'remove')):
